@@ -5,6 +5,7 @@ Part A: theorems for EVERY number of channels and poles (abstract matrices, Math
 Part B: the entries that `dynamics/kmatrix.py` really computes for n = 1, 2 channels
         (`Ampverif.Gen.C09.*`, REGENERATED from the working tree on every run) are the abstract
         `K (1 − iK)⁻¹` resp. `√ρ K̂ (1 − iρK̂)⁻¹ √ρ`, hence unitary and symmetric.
+        (n = 3: `Ampverif.Props.C09N3`, thorough tier.)
 Part C: the regenerated pole parametrisations are symmetric, real under the stated sign
         conditions, and instances of the all-poles formula.
 Part D: the regenerated results of `formulate(n_channels, n_poles)` are the composition of B and C
@@ -817,5 +818,18 @@ theorem relForm11_witness_subthreshold :
     push_cast; ring_nf; rw [Complex.I_sq]; norm_num
   rw [h2, Complex.conj_ofReal, ← Complex.ofReal_mul]
   norm_num
+
+/-! ## Non-vacuity of the hypotheses -/
+
+/-- The denominators of the regenerated entries are non-zero e.g. at K = 0 (and, by
+`nrT2M_unitary_symmetric` / `relT2M_unitary_symmetric`, at every real symmetric K). -/
+example : nrT2_den1 0 0 0 0 ≠ 0 ∧ nrT2_den2 0 0 0 0 ≠ 0 := by
+  simp [nrT2_den1, nrT2_den2]
+
+example : relT2_den1 1 1 0 0 0 0 ≠ 0 := by simp [relT2_den1]
+
+/-- The hypotheses of the relativistic `formulate` theorem (the guard included) are satisfiable. -/
+example : ∃ T : Matrix (Fin 1) (Fin 1) ℂ, (1 + (2 * Complex.I) • T)ᴴ * (1 + (2 * Complex.I) • T) = 1 :=
+  ⟨_, (relForm11_unitary_symmetric 4 1 1 1 1 1 1 1 zero_le_one zero_lt_one zero_lt_one).1⟩
 
 end Ampverif.Props.C09
